@@ -167,7 +167,12 @@ fn c07_mindustry_unknown_mode() {
 /// Just Cause 2: Multiplayer — GameSpy 3 handshake, one packet, key/value
 /// block, u16 player count, players (name, steam id, ping big-endian).
 #[cfg(kani)]
-fn jc2m_case(n_players: usize, password: &str) {
+fn jc2m_case(n_players: usize, password: &str) { jc2m_case_reported(n_players, password, None) }
+
+/// `reported`: the numplayers variable; the documented rule is "the reported
+/// count unless fewer are reported than listed".
+#[cfg(kani)]
+fn jc2m_case_reported(n_players: usize, password: &str, reported: Option<(&str, u32)>) {
     let addr = any_addr_v4();
     let pings: [u16; 2] = kani::any();
     // handshake: challenge "0" = none
@@ -176,6 +181,9 @@ fn jc2m_case(n_players: usize, password: &str) {
     e.u8(0x00).be32(1).cstr("splitnum").u8(0x80).u8(0);
     e.cstr("hostname").cstr("Nm").cstr("version").cstr("1.2").cstr("description").cstr("de");
     e.cstr("maxplayers").cstr("30").cstr("password").cstr(password);
+    if let Some((text, _)) = reported {
+        e.cstr("numplayers").cstr(text);
+    }
     e.u8(0); // end of the key/value block
     e.be16(n_players as u16);
     let names = ["Al", "B"];
@@ -193,7 +201,17 @@ fn jc2m_case(n_players: usize, password: &str) {
             assert!(x.players_maximum == 30);
             assert!(x.has_password == (password == "1" || password == "true"));
             assert!(x.players.len() == n_players);
-            assert!(x.players_online == n_players as u32);
+            let want_online = match reported {
+                Some((_, n)) => {
+                    if (n as usize) < n_players {
+                        n_players as u32
+                    } else {
+                        n
+                    }
+                }
+                None => n_players as u32,
+            };
+            assert!(x.players_online == want_online);
             let mut k = 0;
             while k < n_players {
                 assert!(x.players[k].name == names[k] && x.players[k].steam_id == ids[k]);
@@ -220,6 +238,20 @@ fn c07_jc2m_two_players() { jc2m_case(2, "0") }
 #[kani::stub(alloc::fmt::format, stub_format)]
 #[kani::stub(core::str::from_utf8, stub_from_utf8)]
 fn c07_t_jc2m_no_players_password() { jc2m_case(0, "1") }
+
+#[cfg(kani)]
+#[kani::proof]
+#[kani::unwind(14)]
+#[kani::stub(alloc::fmt::format, stub_format)]
+#[kani::stub(core::str::from_utf8, stub_from_utf8)]
+fn c07_jc2m_reported_more_than_listed() { jc2m_case_reported(1, "0", Some(("5", 5))) }
+
+#[cfg(kani)]
+#[kani::proof]
+#[kani::unwind(14)]
+#[kani::stub(alloc::fmt::format, stub_format)]
+#[kani::stub(core::str::from_utf8, stub_from_utf8)]
+fn c07_t_jc2m_reported_fewer_than_listed() { jc2m_case_reported(2, "0", Some(("1", 1))) }
 
 /// The Ship: info with the ship block, players with deaths/money, rules — all
 /// three required.
